@@ -591,7 +591,8 @@ Inductive op :=
 | Ctx (r i step : N) (cert : bool) (maxp : option (N * N))   (* ContextChangeEvent + getMaxPriorityFn's answer (priority, hash) *)
 | Msg (m : msg)                                              (* a vote message reaches processVoteMsg *)
 | Cache (h : N) (present : bool)                             (* a proposed block enters / leaves the proposal cache *)
-| Srv (r i : N).                                             (* the server moves to (round, index) *)
+| Srv (r i : N)                                              (* the server moves to (round, index) *)
+| Restart.                                                   (* the process restarts: NewVoter over the same database *)
 
 Definition set_cache (v : voter) (c : list N) : voter :=
   mkVoter (v_round v) (v_idx v) (v_step v) (v_cert v) (v_precommitted v) (v_committed v) (v_sent v)
@@ -602,6 +603,15 @@ Definition set_srv (v : voter) (s : N * N) : voter :=
           (v_certificated v) (v_next_marked v) (v_cur_marked v) (v_next_voted v) (v_over v) (v_ws v) (v_upd v)
           (v_db v) (v_cache v) s.
 
+(* NewVoter: every field of the Voter is re-initialised (round nil, latches
+   false, no marked blocks, empty voteOver, a fresh VotesWrapperList, no
+   pending header update); the vote database is NewVoteDB over the same store,
+   which replays the persisted records.  The block cache and the server's
+   context belong to the environment and are left as they are. *)
+Definition restart (v : voter) : voter :=
+  mkVoter None 0 0 false false false false false None None None [] [] None
+          (V.new_votedb (V.st (v_db v))) (v_cache v) (v_srv v).
+
 Definition step (E : env) (v : voter) (o : op) : voter * list event * N :=
   match o with
   | Ctx r i s cert maxp => let '(v', e) := update_context E v r i s cert maxp in (v', e, ret_ok)
@@ -609,6 +619,7 @@ Definition step (E : env) (v : voter) (o : op) : voter * list event * N :=
   | Cache h true => (set_cache v (h :: v_cache v), [], ret_ok)
   | Cache h false => (set_cache v (filter (fun x => negb (x =? h)) (v_cache v)), [], ret_ok)
   | Srv r i => (set_srv v (r, i), [], ret_ok)
+  | Restart => (restart v, [], ret_ok)
   end.
 
 (* the state after a history, and the trace of (op, events) *)
